@@ -144,6 +144,7 @@ def messages(kind, fc, tier, sub=None):
             for n in range(1, 124):
                 for off in (0, 13):
                     yield dict(K, address=B16[(n + off) % len(B16)], count=n, byte_count=2 * n, registers=regs(n, off))
+            yield dict(K, address=5, count=0, byte_count=0, registers=[])
         elif fc == 0x14:
             for g in file_read_groups(tier):
                 yield dict(K, groups=g)
@@ -160,6 +161,8 @@ def messages(kind, fc, tier, sub=None):
             for ra, rc, wa in itertools.product(B16S, repeat=3):
                 yield dict(K, read_address=ra, read_count=rc, write_address=wa, write_count=1,
                            write_byte_count=2, write_registers=[0xA5A5])
+            # an empty write block (not a request a server executes, but a PDU the codec must carry unchanged)
+            yield dict(K, read_address=1, read_count=2, write_address=3, write_count=0, write_byte_count=0, write_registers=[])
         elif fc == 0x18:
             for a in (B16 if tier == 'quick' else range(0x10000)):
                 yield dict(K, address=a)
